@@ -190,6 +190,11 @@ class Executor(ExprMixin, ContainerMixin, CallMixin, StmtMixin, ObjectMixin):
         for n, t in tags.items():
             svs[n] = self.make_arg(n, t, p)
         p.env = dict(svs)
+        for nm, (tag, mode) in c.captures.items():  # nested function verified as a unit: captured variables are symbolic inputs
+            svs[nm + "__in"] = self.make_arg(nm + "__in", tag, p)
+            p.env[nm] = svs[nm + "__in"]
+        if c.captures:
+            p.env[self.fd.name] = SV("func", ("nested", self.fd, None))  # its own name, for the recursive call
         self.h_entry = h0
         self.args_entry = Args(dict(svs))
         x0 = Ctx(self, h0, h0, self.args_entry, family=self.family)
@@ -231,12 +236,23 @@ class Executor(ExprMixin, ContainerMixin, CallMixin, StmtMixin, ObjectMixin):
             p.heap = h1
             p.assume(ax)
 
+    def args_at_exit(self, p: Path) -> Args:
+        """entry arguments + the final bindings of the `nonlocal` variables of a nested function (<name>__out)"""
+        c = self.contract
+        if not any(mode == "inout" for _t, mode in c.captures.values()):
+            return self.args_entry
+        svs = dict(self.args_entry._sv)
+        for nm, (_tag, mode) in c.captures.items():
+            if mode == "inout":
+                svs[nm + "__out"] = p.env[nm]
+        return Args(svs)
+
     def at_exit(self, p: Path, res: SV, how: str):
         c = self.contract
         if c.is_generator:
             res = SV("gen", p.ghost.get("yielded", L.Empty))
         self.exit_ghost(p, c.ghost_exit, res)
-        x = Ctx(self, self.h_entry, p.heap, self.args_entry, res=res, family=self.family, labels=p.labels)
+        x = Ctx(self, self.h_entry, p.heap, self.args_at_exit(p), res=res, family=self.family, labels=p.labels)
         x.p = p
         x0 = Ctx(self, self.h_entry, self.h_entry, self.args_entry, family=self.family)
         site = f"exit({how}@L{p.ghost['exit_line']})" if how == "return" and "exit_line" in p.ghost else f"exit({how})"
@@ -299,7 +315,7 @@ class Executor(ExprMixin, ContainerMixin, CallMixin, StmtMixin, ObjectMixin):
     def at_raise(self, p: Path, exc: ExcV):
         c = self.contract
         self.exit_ghost(p, c.ghost_exit_exc, None, exc=exc)
-        x = Ctx(self, self.h_entry, p.heap, self.args_entry, family=self.family, exc=exc, labels=p.labels)
+        x = Ctx(self, self.h_entry, p.heap, self.args_at_exit(p), family=self.family, exc=exc, labels=p.labels)
         x.p = p
         x0 = Ctx(self, self.h_entry, self.h_entry, self.args_entry, family=self.family)
         site = f"raise {exc.cls}@{exc.site}"
